@@ -62,7 +62,9 @@ var Scenarios = []Scenario{
 			"v snapshot",
 			"v retention snap 1 2",
 			"w small", "v sync-wait",
-			"v compact 1", // L0Retention is 1ns by now: compaction also enforces L0 retention
+			"w multi", "v sync-wait",
+			"v retention l0", // two L0 files not yet compacted into L1: nothing may be deleted
+			"v compact 1",    // L0Retention is 1ns by now: compaction also enforces L0 retention
 			"w small", "v sync-wait",
 			"v compact 1",
 			"v compact 2",
